@@ -71,6 +71,7 @@ type ScenarioOutcome struct {
 	PartialKind  string   `json:"partial_kind,omitempty"`
 	FaultFired   int      `json:"fault_fired"`
 	FaultLines   []string `json:"fault_lines,omitempty"`
+	Trace        []string `json:"trace,omitempty"` // fault-free syscall trace: "src:openat", "dst:write", ...
 	WorldChanges []string `json:"world_changes,omitempty"`
 	Expect       string   `json:"expect"`
 	HealExit     *int     `json:"heal_exit,omitempty"`
@@ -579,7 +580,8 @@ func (s *Scenario) expect(imageClass string, nlines int, fired int) expectation 
 	return e
 }
 
-var posRe = regexp.MustCompile(`(\d+):(\d+)`)
+// A position is accepted in any of the usual spellings: "12:7", "line 12", "12行".
+var posRe = regexp.MustCompile(`(\d+):\d+|(?i:line)\s*(\d+)|(\d+)\s*行`)
 
 // judge applies G1, G2 and the pinned status. image may be nil when imageClass != ok.
 func judge(s *Scenario, e expectation, o *ScenarioOutcome, image []byte, imageClass string) *Violation {
@@ -643,14 +645,14 @@ func judge(s *Scenario, e expectation, o *ScenarioOutcome, image []byte, imageCl
 		}
 		okPos := false
 		for _, m := range posRe.FindAllStringSubmatch(o.Output, -1) {
-			ln, _ := strconv.Atoi(m[1])
+			ln, _ := strconv.Atoi(m[1] + m[2] + m[3])
 			if ln >= 1 && ln <= e.NLines+1 {
 				okPos = true
 				break
 			}
 		}
 		if !okPos {
-			return mk("R3-parse-error-position", "parse error reported without a line:column position inside the file", fmt.Sprintf("a position line:col with 1<=line<=%d", e.NLines+1), clipS(o.Output, 200))
+			return mk("R3-parse-error-position", "parse error reported without a position (line number) inside the file", fmt.Sprintf("a position such as line:col with 1<=line<=%d", e.NLines+1), clipS(o.Output, 200))
 		}
 	}
 	return nil
@@ -768,6 +770,15 @@ func (c *c19Ctx) execute(s *Scenario, keepDir bool) (out *ScenarioOutcome, viol 
 				cmd = append(cmd, "prlimit", fmt.Sprintf("--fsize=%d", f.K))
 			case "nofile":
 				cmd = append(cmd, "prlimit", fmt.Sprintf("--nofile=%d", f.K))
+			case "trace": // no fault: record the syscalls the run makes on source and destination
+				sa, da := wp.SrcArg, wp.DstArg
+				if !filepath.IsAbs(sa) {
+					sa = filepath.Join(W, sa)
+				}
+				if !filepath.IsAbs(da) {
+					da = filepath.Join(W, da)
+				}
+				cmd = append(cmd, "strace", "-f", "-o", logp, "-e", "trace=openat,read,write,newfstatat,fstat,close", "-P", sa, "-P", da)
 			case "strace":
 				target := wp.SrcArg
 				if f.Target == "dst" {
@@ -792,6 +803,13 @@ func (c *c19Ctx) execute(s *Scenario, keepDir bool) (out *ScenarioOutcome, viol 
 		}
 		fired := 0
 		var lines []string
+		if f != nil && f.Kind == "trace" {
+			b, err := os.ReadFile(logp)
+			if err != nil {
+				infraFail("strace log missing: %v", err)
+			}
+			out.Trace = parseTrace(string(b), wp)
+		}
 		if f != nil && f.Kind == "strace" {
 			if b, err := os.ReadFile(logp); err == nil {
 				for _, l := range strings.Split(string(b), "\n") {
@@ -861,4 +879,50 @@ func (c *c19Ctx) execute(s *Scenario, keepDir bool) (out *ScenarioOutcome, viol 
 	}
 	out.WallMs = time.Since(t0).Milliseconds()
 	return out, viol, nil
+}
+
+var traceRe = regexp.MustCompile(`^\d+\s+(openat|read|write|newfstatat|fstat|close)\((.*)$`)
+var traceRetRe = regexp.MustCompile(`=\s+(-?\d+)`)
+
+// parseTrace turns a strace log (filtered with -P source -P destination) into the ordered list of
+// "target:syscall" events, following file descriptors back to the path they were opened on.
+func parseTrace(log string, wp *worldPaths) []string {
+	var ev []string
+	fds := map[string]string{}
+	srcA, dstA := wp.SrcArg, wp.DstArg
+	for _, l := range strings.Split(log, "\n") {
+		m := traceRe.FindStringSubmatch(l)
+		if m == nil {
+			continue
+		}
+		sys, rest := m[1], m[2]
+		target := ""
+		switch sys {
+		case "openat", "newfstatat":
+			if strings.Contains(rest, "\""+filepath.Base(srcA)+"\"") || strings.Contains(rest, srcA+"\"") {
+				target = "src"
+			}
+			if strings.Contains(rest, dstA+"\"") {
+				target = "dst"
+			}
+			if sys == "openat" && target != "" {
+				if r := traceRetRe.FindAllStringSubmatch(rest, -1); len(r) > 0 {
+					fds[r[len(r)-1][1]] = target
+				}
+			}
+		default:
+			fd := rest
+			if i := strings.IndexAny(fd, ",)"); i >= 0 {
+				fd = fd[:i]
+			}
+			target = fds[fd]
+			if sys == "close" {
+				delete(fds, fd)
+			}
+		}
+		if target != "" {
+			ev = append(ev, target+":"+sys)
+		}
+	}
+	return ev
 }
